@@ -1943,7 +1943,9 @@ class LazyCryptContext(CryptContext):
             # NOTE: until loading has completed (and the class has been switched), every public
             #       access goes through the lock, so that a second thread waits for the loader
             #       instead of seeing (or re-running) a half-finished initialization.
+            #       (instance dict is checked directly: by the time the lock is ours, the loader
+            #       may already have switched the class, which no longer has this attribute.)
             with object.__getattribute__(self, "_lazy_lock"):
-                if self._lazy_kwds is not None:
+                if object.__getattribute__(self, "__dict__").get("_lazy_kwds") is not None:
                     self._lazy_init()
         return object.__getattribute__(self, attr)
